@@ -28,22 +28,22 @@ ASSUMPTIONS = [
     'queued/completed/pending are compared with the model only in histories without over-reports',
 ]
 MIN_EVENTS = {
-    'quick': {'queue_ops': 20000, 'pipe_writes': 2000, 'rig_acl_packets': 200, 'drain_waiters': 500},
-    'thorough': {'queue_ops': 500000, 'pipe_writes': 50000, 'rig_acl_packets': 2000, 'drain_waiters': 5000},
+    'quick': {'queue_ops': 300000, 'pipe_writes': 15000, 'rig_acl_packets': 1500, 'drain_waiters': 40000},
+    'thorough': {'queue_ops': 5000000, 'pipe_writes': 300000, 'rig_acl_packets': 15000, 'drain_waiters': 500000},
 }
 CASE_TIMEOUT = 600
 
 
 def plan(tier, seed):
     cases = []
-    nq = 64 if tier == 'quick' else 640
+    nq = 256 if tier == 'quick' else 1280
     per = 150 if tier == 'quick' else 800
     for i in range(nq):
         cases.append({'kind': 'queue', 'seed': seed * 100003 + i, 'histories': per})
-    npipe = 16 if tier == 'quick' else 160
+    npipe = 64 if tier == 'quick' else 320
     for i in range(npipe):
         cases.append({'kind': 'pipe', 'seed': seed * 100003 + i, 'histories': 40 if tier == 'quick' else 200})
-    nrig = 24 if tier == 'quick' else 240
+    nrig = 128 if tier == 'quick' else 960
     for i in range(nrig):
         cases.append({'kind': 'rig', 'seed': seed * 100003 + i})
     return cases
